@@ -356,7 +356,7 @@ func main() {
 	}
 
 	// generated canonical ids: every Type x every photo-size-source kind first, then random
-	n := c.N(450, 50000)
+	n := c.N(450, 8000)
 	for i := 0; i < n; i++ {
 		typ, kind := i%18, (i/18)%10
 		if i >= 180 {
@@ -391,7 +391,7 @@ func main() {
 		}
 	}
 	// non-canonical ids: encode only (fields the format does not carry, negative DC)
-	for i := 0; i < c.N(40, 2000); i++ {
+	for i := 0; i < c.N(40, 800); i++ {
 		f := randCanonical(r, r.Intn(18), r.Intn(10))
 		switch r.Intn(4) {
 		case 0:
@@ -412,7 +412,7 @@ func main() {
 	c.Note("DC is a 32-bit field read unsigned by decodeLatestFileID: the round-trip domain is 0 <= DC < 2^32 (negative DCs come back as DC+2^32; Telegram DC ids are small positive numbers); FileReference nil and empty are identified")
 
 	// RLE directly
-	for i := 0; i < c.N(200, 20000); i++ {
+	for i := 0; i < c.N(200, 5000); i++ {
 		var s []byte
 		switch r.Intn(4) {
 		case 0:
@@ -433,7 +433,7 @@ func main() {
 		}
 		rleCase("random", s)
 	}
-	for i := 0; i < c.N(100, 10000); i++ {
+	for i := 0; i < c.N(100, 3000); i++ {
 		s := r.Bytes(r.Intn(24))
 		for j := range s {
 			if r.Chance(1, 3) {
@@ -444,7 +444,7 @@ func main() {
 	}
 
 	// arbitrary strings
-	for i := 0; i < c.N(250, 30000); i++ {
+	for i := 0; i < c.N(250, 8000); i++ {
 		switch r.Intn(4) {
 		case 0: // random base64url text
 			l := r.Intn(80)
